@@ -58,6 +58,21 @@ def t_incompat():
     return g.set_start_nodes({r}), dict(sel=[c1, c2])
 
 
+def t_incompat3():
+    """two permanent choices under separate nodes; option A1 excludes option X2 of the *later* choice (which keeps two
+    options and so stays a variable): vectors (1, 2) have to be corrected"""
+    B, N, *_ = _imp()
+    g = B()
+    r, p, q = N('R'), N('P'), N('Q')
+    a = [N('A0'), N('A1')]
+    x = [N('X0'), N('X1'), N('X2')]
+    g.add_edges([(r, p), (r, q)])
+    c1 = g.add_selection_choice('C1', p, a)
+    c2 = g.add_selection_choice('C2', q, x)
+    g.add_incompatibility_constraint([a[1], x[2]])
+    return g.set_start_nodes({r}), dict(sel=[c1, c2])
+
+
 def t_forced():
     B, N, *_ = _imp()
     g = B()
@@ -479,7 +494,7 @@ def t_conn_dv():
 
 
 TEMPLATES = {
-    'two_indep': t_two_indep, 'nested': t_nested, 'nested3': t_nested3, 'incompat': t_incompat, 'forced': t_forced,
+    'two_indep': t_two_indep, 'nested': t_nested, 'nested3': t_nested3, 'incompat': t_incompat, 'incompat3': t_incompat3, 'forced': t_forced,
     'dv': t_dv, 'dv_single': t_dv_single, 'dv_or_existence': t_dv_or_existence, 'dv_linked': t_dv_linked, 'sel_linked': t_sel_linked, 'sel_forced_linked': t_sel_forced_linked,
     'conn_simple': t_conn_simple, 'conn_cond': t_conn_cond, 'conn_opt_src': t_conn_opt_src,
     'conn_infeasible_scenario': t_conn_infeasible_scenario, 'conn_group': t_conn_group,
